@@ -88,6 +88,7 @@ class ModelCheck(PipelineCheck):
             elif self.relevant(f):
                 out.add(f.kind, f.op, f.detail)
         out.digest = ctx.trace_digest() + repr(final.terminal) + repr([(f.kind, f.op, f.path) for f in findings])
+        out.states = tuple(ctx.extra.get('states', ()))
         self.probe(case, ctx, out)
         return out
 
